@@ -251,6 +251,10 @@ def check(program: Program, run: Run) -> None:
     # ---- R2 class-keyed conventions
     _r2(program, run)
 
+    # ---- the mechanism keeps no state between renderings (shared rule, see families.inherit_history_dependence)
+    from ..families import inherit_history_dependence
+    run.rule("history: no function of this property's mechanism writes object / class / parameterizer state while rendering or memoises on a copied object (inherited from C02 and C01)")
+    inherit_history_dependence(program, run, "C08", r"^(Parameter|Interval|JSON)\.get_sql|^Parameterizer\.", "the dialect-dependent text of a term is fixed by the first context that rendered it")
 
 CONVENTION_FIELDS = ("dialect", "quote_char", "secondary_quote_char", "alias_quote_char", "as_keyword", "groupby_alias", "orderby_alias")
 
